@@ -1,12 +1,11 @@
 import AlatorVerif.Model.Jura
+import AlatorVerif.Driver.Util
 namespace Drv.Jura
-open PJ
+open PJ Drv
 
 abbrev JOrd := Order Float
-def f64 (s : String) : Float := Float.ofBits (s.toNat!.toUInt64)
-def bits (x : Float) : String := toString x.toBits.toNat
 
--- order encoding: asset isBuy limitPxBits szBits kind  where kind = L:ioc | L:gtc | L:alo | T:<pxBits>:<isMarket 0/1>:<tp|sl>
+-- order encoding: asset isBuy f<limitPx> f<sz> kind   where kind = L:ioc | L:gtc | L:alo | T:f<px>:<isMarket 0/1>:<tp|sl>
 def parseTyp (k : String) : OType Float :=
   match k.splitOn ":" with
   | ["L", "ioc"] => .limit .ioc
@@ -15,11 +14,20 @@ def parseTyp (k : String) : OType Float :=
   | ["T", px, m, t] => .trigger (f64 px) (m == "1") (if t == "tp" then .tp else .sl)
   | _ => .limit .alo
 
-def isSellO (o : JOrd) : Bool := !o.isBuy
+def showTyp : OType Float → String
+  | .limit .ioc => "L:ioc" | .limit .gtc => "L:gtc" | .limit .alo => "L:alo"
+  | .trigger px m t =>
+    let ms := if m then "1" else "0"
+    let tt := match t with | .tp => "tp" | .sl => "sl"
+    s!"T:{fb px}:{ms}:{tt}"
 
-def sellFirstPerm (n : Nat) (idx : List Nat) (buf : List JOrd) : Bool :=
-  let sides := idx.map (fun i => match buf[i]? with | some o => isSellO o | none => false)
-  idx.length == n && (List.range n).all (fun i => idx.count i == 1) && (sides.dropWhile id).all (fun b => !b)
+def showOrder (o : JOrd) : String :=
+  let b := if o.isBuy then "1" else "0"
+  s!"{o.asset} {b} {fb o.limitPx} {fb o.sz} {showTyp o.typ}"
+
+def showInner (i : Inner Float) : String :=
+  let a := if i.attempted then "1" else "0"
+  s!"{i.id} {showOrder i.order} {a}"
 
 def parseQuotes : Nat → List String → List (Nat × Quote Float) × List String
   | 0, rest => ([], rest)
@@ -30,43 +38,37 @@ def parseQuotes : Nat → List String → List (Nat × Quote Float) × List Stri
 
 def showFill (f : Fill Float) : String :=
   let sd := if f.buy then "A" else "B"
-  s!"{f.coin} {f.oid} {bits f.px} {sd} {bits f.sz} {f.time}"
+  s!"{f.coin} {f.oid} {fb f.px} {sd} {fb f.sz} {f.time}"
 
-def stepLine (s : Jura Float) (line : String) : Jura Float × String :=
-  match line.trimAscii.toString.splitOn " " with
+def snapshot (s : Jura Float) : String :=
+  s!"B {s.book.inner.length} {joinSp (s.book.inner.map showInner)} ; U {s.buffer.length} ; X {s.book.last} ; L {s.log.length}"
+
+def step (s : Jura Float) (ts : List String) : Jura Float × String :=
+  match ts with
   | ["I", asset, isBuy, lpx, sz, kind] =>
     let o : JOrd := ⟨asset.toNat!, isBuy == "1", f64 lpx, f64 sz, false, none, parseTyp kind⟩
     ({ s with buffer := s.buffer ++ [o] }, "ok")
-  | ["D", asset, id] => ({ s with book := s.book.delete asset.toNat! id.toNat! }, "ok")
+  | ["D", asset, id] =>
+    let s' := { s with book := s.book.delete asset.toNat! id.toNat! }
+    (s', s!"ok ; {snapshot s'}")
   | "T" :: nq :: rest =>
     let (qs, rest) := parseQuotes nq.toNat! rest
     match rest with
+    | "A" :: _ :: ["BAD"] => (s, "REJECT-ADMISSION not-a-permutation-of-the-batch")
     | "A" :: n :: idx =>
       let idx := idx.map String.toNat!
-      if !sellFirstPerm n.toNat! idx s.buffer || n.toNat! != s.buffer.length then (s, "REJECT-ADMISSION")
+      let sellAt := fun i => match s.buffer[i]? with | some o => !o.isBuy | none => false
+      if n.toNat! != s.buffer.length || !sellFirstPerm n.toNat! idx sellAt then (s, "REJECT-ADMISSION not-sell-first")
       else
         let adm := idx.filterMap (fun i => s.buffer[i]?)
         let quotes : Nat → Option (Quote Float) := fun a => (qs.find? (fun q => q.1 == a)).map (·.2)
         let (s', fills, kids, pn) := s.tick quotes adm
         if pn then (s', "PANIC")
         else
-          let fs := " ".intercalate (fills.map showFill)
-          let ks := " ".intercalate (kids.map toString)
-          (s', s!"F {fills.length} {fs} ; K {kids.length} {ks} ; N {adm.length}")
+          (s', s!"F {fills.length} {joinSp (fills.map showFill)} ; K {kids.length} {joinSp (kids.map toString)} ; N {adm.length} ; {snapshot s'}")
     | _ => (s, "bad-op")
   | _ => (s, "bad-op")
 
-partial def loop (h : IO.FS.Stream) (s : Jura Float) : IO Unit := do
-  let line ← h.getLine
-  if line.isEmpty then return ()
-  if line.trimAscii.toString == "RESET" then
-    IO.println "reset"
-    loop h {}
-  else
-    let (s', out) := stepLine s line
-    IO.println out
-    loop h s'
-
-def main : IO Unit := do loop (← IO.getStdin) {}
+def main : IO Unit := do loopWith (← IO.getStdin) ({} : Jura Float) step {}
 
 end Drv.Jura
